@@ -8,13 +8,14 @@ from xml.sax.saxutils import escape
 PREAMBLE = ("int i;\nint j = 1;\nclock x;\nchan c;\nbroadcast chan b;\nconst int N = 2;\nint a[3];\n"
             "typedef int[0,2] id_t;\nbool pos(int v) { return v > 0; }\n")
 BASE_FUNS = ["pos"]
+BUILTIN_TYPES = ["int8_t", "uint8_t", "int16_t", "uint16_t", "int32_t"]
 
 PROFILES = {
     # name: constants of DocGen.tla ; different profiles balance the random walk toward different parts of the universe
-    "struct": dict(MaxTempl=2, MaxLoc=3, MaxBp=1, MaxEdge=4, MaxInst=1, MaxProc=2, Budget=18, PoolCap=9),
-    "labels": dict(MaxTempl=1, MaxLoc=2, MaxBp=1, MaxEdge=2, MaxInst=1, MaxProc=1, Budget=14, PoolCap=9),
+    "struct": dict(MaxTempl=2, MaxLoc=3, MaxBp=1, MaxEdge=4, MaxInst=1, MaxProc=2, Budget=18, PoolCap=12),
+    "labels": dict(MaxTempl=1, MaxLoc=2, MaxBp=1, MaxEdge=2, MaxInst=1, MaxProc=1, Budget=14, PoolCap=12),
     "system": dict(MaxTempl=2, MaxLoc=1, MaxBp=0, MaxEdge=1, MaxInst=4, MaxProc=3, Budget=9, PoolCap=2),
-    "mixed": dict(MaxTempl=3, MaxLoc=3, MaxBp=1, MaxEdge=4, MaxInst=3, MaxProc=3, Budget=24, PoolCap=9),
+    "mixed": dict(MaxTempl=3, MaxLoc=3, MaxBp=1, MaxEdge=4, MaxInst=3, MaxProc=3, Budget=26, PoolCap=12),
 }
 BFS = dict(MaxTempl=1, MaxLoc=2, MaxBp=1, MaxEdge=2, MaxInst=1, MaxProc=1, Budget=2, PoolCap=1)
 
@@ -92,6 +93,7 @@ def system_text(m):
             s += " < " if m["seps"][k - 1] == "<" else ", "
         s += p
     lines.append(s + ";")
+    lines += list(m.get("sysx", []))          # progress measures, gantt charts: after the process list
     return "\n".join(lines)
 
 
@@ -195,8 +197,23 @@ def project(doc, builtin_vars):
                    "edges": [{"nr": e["nr"], "src": e["src"], "dst": e["dst"], "control": e["control"],
                               "select": [s["name"] for s in e["select"]], "guard": _s(e["guard"]), "sync": _s(e["sync"]),
                               "assign": _s(e["assign"]), "prob": _s(e["prob"])} for e in t["edges"]]})
+    g = doc["globals"]
+    feats = []
+    if _s(doc.get("before_update")):
+        feats.append({"k": "before_update", "v": _s(doc["before_update"])})
+    if _s(doc.get("after_update")):
+        feats.append({"k": "after_update", "v": _s(doc["after_update"])})
+    for cp in doc.get("chan_priorities", []):
+        feats.append({"k": "chan_priority", "v": _s(cp["head"]) + "".join(x["sep"] + _s(x["chan"]) for x in cp["tail"])})
+    for pm in g.get("progress", []):
+        feats.append({"k": "progress", "v": (_s(pm["guard"]) + ":" if pm.get("guard") else "") + _s(pm["measure"])})
+    for gn in g.get("gantt", []):
+        feats.append({"k": "gantt", "v": gn})
+    ntd = len(BUILTIN_TYPES)
+    tds = [x["name"] for x in g["typedefs"]]
     return {"gvars": gv, "templates": ts, "instances": [_inst(i) for i in doc["instances"]],
-            "processes": [_inst(p) for p in doc["processes"]], "priorities": doc["has_priorities"]}
+            "processes": [_inst(p) for p in doc["processes"]], "priorities": doc["has_priorities"],
+            "gfuns": [f["name"] for f in g["funs"]], "gtypes": tds[ntd:] if tds[:ntd] == BUILTIN_TYPES else ["<<builtin types differ>>"] + tds, "features": feats}
 
 
 def diff(exp, got, path=""):
